@@ -35,6 +35,11 @@ class Unsupported(Exception):
     pass
 
 
+# the only shape of CVSS4.get_eq_maxes the translation rule for its call sites is valid for
+GET_EQ_MAXES_DUMP = ast.dump(ast.parse(
+    'def get_eq_maxes(self, lookup, eq):\n    return MAX_COMPOSED["eq" + str(eq)][str(lookup[eq - 1])]\n').body[0])
+
+
 def rat_of(text):
     f = Fraction(Decimal(text))
     return "(mkRat (%d) %d)" % (f.numerator, f.denominator)
@@ -55,10 +60,16 @@ ROUNDINGS = {"ROUND_CEILING": "ceiling", "ROUND_FLOOR": "floor", "ROUND_HALF_UP"
 # type tags: Dec ODec S OS B Int OInt Map OMap NoneT Unit, ("Dict", T), ("List", T)
 LEAN_TYPE = {"Dec": "Rat", "ODec": "Option Rat", "S": "Str", "OS": "Option Str", "B": "Bool", "Int": "Int",
              "OInt": "Option Int", "Map": "List (Str × Str)", "OMap": "Option (List (Str × Str))", "Unit": "Unit",
-             "J": "Py.J"}
+             "J": "Py.J", "F": "Option Rat"}
 
 
 def lean_type(t):
+    if isinstance(t, tuple) and t[0] == "Maybe":
+        return "Option %s" % paren(lean_type(t[1]))
+    if isinstance(t, tuple) and t[0] == "IDict":
+        return "List (Nat × Nat)"
+    if isinstance(t, tuple) and t[0] == "IIDict":
+        return "List ((Nat × Nat) × Nat)"
     if isinstance(t, tuple):
         if t[0] == "Dict":
             return "List (Str × %s)" % paren(lean_type(t[1]))
@@ -83,6 +94,8 @@ class ClassTranslator:
         self.methods = {n.name: n for n in self.cls.body if isinstance(n, ast.FunctionDef)}
         self.funcs = {n.name: n for n in tree.body if isinstance(n, ast.FunctionDef)}
         self.tmp = 0
+        self.raw_consts = set(consts)
+        self.placeholders = {}
         self.closure_mut = {}
         self.attr_types = {}
         self.sigs = {}      # method -> dict(mutates, ret, params)
@@ -223,9 +236,27 @@ class ClassTranslator:
             return "((%s : Int) : Rat)" % term
         raise Unsupported("numeric operand of type %s" % (ty,))
 
+    def fnum(self, term, ty):
+        """coerce a finite number to a float that may be NaN (`Option Rat`, `none` = nan)"""
+        if ty == "F":
+            return term
+        if ty == "Dec":
+            return "(some %s)" % paren(term)
+        if ty == "Int":
+            return "(some ((%s : Int) : Rat))" % term
+        raise Unsupported("float operand of type %s" % (ty,))
+
     def coerce(self, term, ty, target):
         if ty == target:
             return term
+        if isinstance(target, tuple) and target[0] == "Maybe":
+            if ty == target[1]:
+                return "(some %s)" % paren(term)
+            return "(some %s)" % paren(self.coerce(term, ty, target[1]))
+        if target == "F" and ty in ("Dec", "Int"):
+            return self.fnum(term, ty)
+        if target == "Dec" and ty == "Int":
+            return "((%s : Int) : Rat)" % term
         if target == "J":
             if ty == "S":
                 return "(Py.J.str %s)" % paren(term)
@@ -266,6 +297,10 @@ class ClassTranslator:
                 return pre, lean_str(v), "S"
             raise Unsupported("constant %r" % (v,))
         if isinstance(node, ast.Name):
+            if node.id in env and isinstance(env[node.id], tuple) and env[node.id][0] == "Maybe":
+                v = self.fresh("u")
+                pre.append("let %s ← Py.bound %s" % (v, mangle(node.id)))
+                return pre, v, env[node.id][1]
             if node.id in env:
                 return pre, mangle(node.id), env[node.id]
             if node.id in self.consts:
@@ -301,7 +336,7 @@ class ClassTranslator:
             else:
                 raise Unsupported("dict literal value types %s" % (vts,))
             return pre, "([%s] : %s)" % (body, lean_type(("Dict", vt))), ("Dict", vt)
-        if isinstance(node, ast.ListComp):
+        if isinstance(node, (ast.ListComp, ast.GeneratorExp)):
             if len(node.generators) != 1 or node.generators[0].ifs or not isinstance(node.generators[0].target, ast.Name):
                 raise Unsupported("comprehension shape")
             pi, ti, yi = self.ex(node.generators[0].iter, env)
@@ -312,13 +347,18 @@ class ClassTranslator:
             env2 = dict(env)
             env2[var] = yi[1]
             pe, te, ye = self.ex(node.elt, env2)
+            if ye == "P":
+                te, ye = "(decide %s)" % te, "B"
             if pe:
-                raise Unsupported("effectful comprehension element")
+                v = self.fresh("l")
+                pre.append("let %s ← List.mapM (fun (%s : %s) => (do\n%s)) %s" % (
+                    v, mangle(var), lean_type(yi[1]), ind(pe + ["pure %s" % te], 2), paren(ti)))
+                return pre, v, ("List", ye)
             return pre, "(List.map (fun %s => %s) %s)" % (mangle(var), te, paren(ti)), ("List", ye)
         if isinstance(node, (ast.List, ast.Tuple)):
             elts = [self.ex(e, env) for e in node.elts]
-            if any(p for p, _, _ in elts):
-                raise Unsupported("effectful list element")
+            for p_, _, _ in elts:
+                pre += p_           # elements are evaluated left to right
             tys = {ty for _, _, ty in elts}
             if len(tys) != 1:
                 raise Unsupported("list literal types %s" % (tys,))
@@ -344,14 +384,31 @@ class ClassTranslator:
             if isinstance(node.op, ast.Add) and yl == "S" and yr == "S":
                 pre += pr
                 return pre, "(%s ++ %s)" % (tl, tr), "S"
+            if isinstance(node.op, ast.Add) and yl == "Map" and yr == "Map":
+                pre += pr
+                return pre, "(%s ++ %s)" % (tl, tr), "Map"
             if yl == "Int" and yr == "Int" and isinstance(node.op, (ast.Add, ast.Sub, ast.Mult)):
                 pre += pr
                 op = {ast.Add: "+", ast.Sub: "-", ast.Mult: "*"}[type(node.op)]
                 return pre, "(%s %s %s)" % (tl, op, tr), "Int"
+            if "F" in (yl, yr) and isinstance(node.op, (ast.Add, ast.Sub, ast.Mult)):
+                pre += pr
+                fn = {ast.Add: "fadd", ast.Sub: "fsub", ast.Mult: "fmul"}[type(node.op)]
+                return pre, "(Py.%s %s %s)" % (fn, self.fnum(tl, yl), self.fnum(tr, yr)), "F"
+            if isinstance(node.op, ast.Div):
+                pre += pr
+                v = self.fresh()
+                if "F" in (yl, yr):
+                    pre.append("let %s ← Py.fdiv %s %s" % (v, self.fnum(tl, yl), self.fnum(tr, yr)))
+                    return pre, v, "F"
+                a = self.num(pre, tl, yl)
+                b = self.num(pre, tr, yr)
+                pre.append("let %s ← Py.div %s %s" % (v, paren(a), paren(b)))
+                return pre, v, "Dec"
             a = self.num(pre, tl, yl)
             pre += pr
             b = self.num(pre, tr, yr)
-            ops = {ast.Add: "+", ast.Sub: "-", ast.Mult: "*", ast.Div: "/"}
+            ops = {ast.Add: "+", ast.Sub: "-", ast.Mult: "*"}
             if type(node.op) not in ops:
                 raise Unsupported("operator %s" % type(node.op).__name__)
             return pre, "(%s %s %s)" % (a, ops[type(node.op)], b), "Dec"
@@ -394,7 +451,8 @@ class ClassTranslator:
             pa, ta, ya = self.ex(node.body, env)
             pb, tb, yb = self.ex(node.orelse, env)
             if ya != yb:
-                raise Unsupported("conditional expression of two types")
+                u = unify([ya, yb])         # numeric widening (int / Decimal / float-with-nan), T / None
+                ta, tb, ya, yb = self.coerce(ta, ya, u), self.coerce(tb, yb, u), u, u
             if not pa and not pb:
                 return pre, "(if %s then %s else %s)" % (self.as_prop(tc, yc), ta, tb), ya
             v = self.fresh()
@@ -410,10 +468,41 @@ class ClassTranslator:
                         and isinstance(sl.lower, ast.Constant) and isinstance(sl.lower.value, int) and sl.lower.value >= 0:
                     return pre, "(List.drop %d %s)" % (sl.lower.value, t), ty
                 raise Unsupported("slice")
+            # MAX_SEVERITY["eqK"][i] and MAX_SEVERITY["eq3eq6"][i][j]
+            ms = self.max_severity(node, env)
+            if ms is not None:
+                return ms
+            # self.get_eq_maxes(mv, 3)[mv[5]]
+            v0 = node.value
+            if isinstance(v0, ast.Call) and isinstance(v0.func, ast.Attribute) and is_self(v0.func.value) \
+                    and v0.func.attr == "get_eq_maxes" and len(v0.args) == 2 and isinstance(v0.args[1], ast.Constant) \
+                    and v0.args[1].value == 3:
+                self.check_shape("get_eq_maxes", GET_EQ_MAXES_DUMP)
+                p, t, ty = self.ex(v0.args[0], env)
+                pre += p
+                pk, tk, yk = self.ex(node.slice, env)
+                pre += pk
+                if ty != "S" or yk != "S":
+                    raise Unsupported("eq3/eq6 max-vector look-up types")
+                c = self.fresh()
+                pre.append("let %s ← Py.charAt %s 2" % (c, paren(t)))
+                v = self.fresh()
+                pre.append("let %s ← Py.getitem (%s ++ %s) Gen.V4.maxEq36" % (v, c, tk))
+                return pre, v, ("List", "Map")
             p, t, ty = self.ex(node.value, env)
             pre += p
             pk, tk, yk = self.ex(node.slice, env)
             pre += pk
+            if ty == "S" and yk == "Int":
+                v = self.fresh()
+                if isinstance(node.slice, ast.Constant) and node.slice.value >= 0:
+                    pre.append("let %s ← Py.charAt %s %d" % (v, paren(t), node.slice.value))
+                    return pre, v, "S"
+                raise Unsupported("string index")
+            if isinstance(ty, tuple) and ty[0] == "Dict" and yk == "OS":
+                v = self.fresh()
+                pre.append("let %s ← Py.getitemO %s %s" % (v, paren(tk), paren(t)))
+                return pre, v, ty[1]
             if ty == "OMap":
                 m = self.fresh("d")
                 pre.append("let %s ← Py.req %s" % (m, t))
@@ -428,6 +517,71 @@ class ClassTranslator:
         if isinstance(node, ast.Call):
             return self.call(node, env)
         raise Unsupported("expression %s" % type(node).__name__)
+
+    def effectful(self, elt, env, comp):
+        """does the element of a comprehension raise / read through a method (needs `mapM`)?"""
+        try:
+            var = comp.generators[0].target.id
+            _, _, yi = self.ex(comp.generators[0].iter, env)
+            env2 = dict(env)
+            env2[var] = yi[1]
+            save = self.tmp
+            pe, _, _ = self.ex(elt, env2)
+            self.tmp = save
+            if pe and all(l.startswith("let ") and "← Py.req self." in l for l in pe):
+                return False
+            return bool(pe)
+        except Unsupported:
+            return False
+        except Exception:  # noqa
+            return False
+
+    def append_type(self, var, fn, env):
+        """element type of a list that starts empty: strings, unless its appends add up max-vector pieces"""
+        if fn is not None:
+            for n in ast.walk(fn):
+                if isinstance(n, ast.Call) and isinstance(n.func, ast.Attribute) and n.func.attr == "append" \
+                        and isinstance(n.func.value, ast.Name) and n.func.value.id == var and n.args:
+                    a = n.args[0]
+                    names = {x.id for x in ast.walk(a) if isinstance(x, ast.Name)}
+                    if isinstance(a, ast.BinOp) and names and all(x.endswith("_max") or x.endswith("max") for x in names):
+                        return "Map"
+        return "S"
+
+    def check_shape(self, name, dump):
+        if ast.dump(self.methods[name]) != dump:
+            raise Unsupported("%s no longer has the shape its translation rule assumes" % name)
+
+    def max_severity(self, node, env):
+        chain = []
+        n = node
+        while isinstance(n, ast.Subscript):
+            chain.append(n.slice)
+            n = n.value
+        if not (isinstance(n, ast.Name) and n.id == "MAX_SEVERITY" and "MAX_SEVERITY" in self.raw_consts):
+            return None
+        chain.reverse()
+        if not (isinstance(chain[0], ast.Constant) and isinstance(chain[0].value, str)):
+            raise Unsupported("MAX_SEVERITY key")
+        key = chain[0].value
+        pre = []
+        idx = []
+        for c in chain[1:]:
+            p, t, ty = self.ex(c, env)
+            pre += p
+            if ty != "Int":
+                raise Unsupported("MAX_SEVERITY index type")
+            idx.append(t)
+        tbl = {"eq1": ("Gen.V4.maxSeverityEq1", 1), "eq2": ("Gen.V4.maxSeverityEq2", 1), "eq4": ("Gen.V4.maxSeverityEq4", 1),
+               "eq5": ("Gen.V4.maxSeverityEq5", 1), "eq3eq6": ("Gen.V4.maxSeverityEq36", 2)}.get(key)
+        if tbl is None or len(idx) != tbl[1]:
+            raise Unsupported("MAX_SEVERITY[%r] with %d indices" % (key, len(idx)))
+        v = self.fresh()
+        if tbl[1] == 1:
+            pre.append("let %s ← Py.getitemN %s %s" % (v, paren(idx[0]), tbl[0]))
+        else:
+            pre.append("let %s ← Py.getitemNN %s %s %s" % (v, paren(idx[0]), paren(idx[1]), tbl[0]))
+        return pre, v, "Int"
 
     def as_prop(self, term, ty):
         if ty == "P":
@@ -446,6 +600,14 @@ class ClassTranslator:
 
     def compare(self, left, op, right, env):
         pre = []
+        if isinstance(op, ast.In) and isinstance(left, ast.Call) and isinstance(left.func, ast.Name) and left.func.id == "type" \
+                and len(left.args) == 1 and isinstance(right, ast.Tuple) \
+                and all(isinstance(e, ast.Name) and e.id in ("float", "int") for e in right.elts) \
+                and {e.id for e in right.elts} == {"float", "int"}:
+            p, t, ty = self.ex(left.args[0], env)
+            if ty in ("F", "Dec", "Int") and ty != "Dec" or ty == "F":
+                return p, "True", "P"        # a float (possibly nan) or an int: statically known
+            raise Unsupported("type() test on %s" % (ty,))
         pl, tl, yl = self.ex(left, env)
         pre += pl
         if isinstance(op, (ast.In, ast.NotIn)):
@@ -495,6 +657,10 @@ class ClassTranslator:
             t = "(%s = %s)" % (a, b)
             return pre, ("(¬ %s)" % t if isinstance(op, ast.NotEq) else t), "P"
         ops = {ast.Lt: "<", ast.LtE: "≤", ast.Gt: ">", ast.GtE: "≥"}
+        if type(op) in ops and "F" in (yl, yr):
+            pre += pr
+            fn = {ast.Lt: "flt", ast.LtE: "fle", ast.Gt: "fgt", ast.GtE: "fge"}[type(op)]
+            return pre, "(Py.%s %s %s = true)" % (fn, self.fnum(tl, yl), self.fnum(tr, yr)), "P"
         if type(op) in ops:
             a = self.num(pre, tl, yl)
             pre += pr
@@ -513,15 +679,49 @@ class ClassTranslator:
             if f.id == "D":
                 if len(node.args) == 1 and isinstance(node.args[0], ast.Constant) and isinstance(node.args[0].value, (str, int)):
                     return pre, rat_of(str(node.args[0].value)), "Dec"
+                if len(node.args) == 1:
+                    # Decimal(float) is exact; a NaN float makes the following quantize raise
+                    p, t, ty = self.ex(node.args[0], env)
+                    pre += p
+                    if ty == "F":
+                        v = self.fresh("v")
+                        pre.append("let %s ← Py.finite %s" % (v, t))
+                        return pre, v, "Dec"
+                    if ty == "Dec":
+                        return pre, t, "Dec"
                 raise Unsupported("D(non-literal)")
+            if f.id == "float" and len(node.args) == 1 and isinstance(node.args[0], ast.Constant) and node.args[0].value == "nan":
+                return pre, "(none : Option Rat)", "F"
+            if f.id == "int" and len(node.args) == 1 and not node.keywords:
+                p, t, ty = self.ex(node.args[0], env)
+                pre += p
+                if ty != "S":
+                    raise Unsupported("int(%s)" % (ty,))
+                v = self.fresh()
+                pre.append("let %s ← Py.int %s" % (v, paren(t)))
+                return pre, v, "Int"
             if f.id in ("min", "max") and len(node.args) == 2 and not node.keywords:
                 pa, ta, ya = self.ex(node.args[0], env)
                 pre += pa
+                save_tmp = self.tmp
+                pb0, tb0, yb0 = self.ex(node.args[1], env)
+                if "F" not in (ya, yb0):
+                    self.tmp = save_tmp
+                if "F" in (ya, yb0):
+                    pre += pb0
+                    return pre, "(Py.%s %s %s)" % ("fmin" if f.id == "min" else "fmax", self.fnum(ta, ya), self.fnum(tb0, yb0)), "F"
                 a = self.num(pre, ta, ya)
                 pb, tb, yb = self.ex(node.args[1], env)
                 pre += pb
                 b = self.num(pre, tb, yb)
                 return pre, "(%s %s %s)" % ("pyMin" if f.id == "min" else "pyMax", paren(a), paren(b)), "Dec"
+            if f.id in ("all", "any") and len(node.args) == 1 and isinstance(node.args[0], (ast.GeneratorExp, ast.ListComp)) \
+                    and self.effectful(node.args[0].elt, env, node.args[0]):
+                p, t, ty = self.ex(node.args[0], env)
+                pre += p
+                if ty != ("List", "B"):
+                    raise Unsupported("%s over %s" % (f.id, ty))
+                return pre, "(List.%s %s (fun b => b))" % (f.id, paren(t)), "B"
             if f.id in ("all", "any") and len(node.args) == 1 and isinstance(node.args[0], (ast.GeneratorExp, ast.ListComp)):
                 g = node.args[0]
                 if len(g.generators) != 1 or g.generators[0].ifs or not isinstance(g.generators[0].target, ast.Name):
@@ -557,6 +757,8 @@ class ClassTranslator:
                 if ty == "S":
                     return pre, t, "S"
                 raise Unsupported("str(%s)" % (ty,))
+            if f.id == "float" and len(node.args) == 1 and not node.keywords and False:
+                pass
             if f.id == "OrderedDict" and len(node.args) == 1 and not node.keywords:
                 a = node.args[0]
                 if isinstance(a, ast.List) and all(isinstance(e, ast.Tuple) and len(e.elts) == 2 for e in a.elts):
@@ -615,6 +817,30 @@ class ClassTranslator:
                 return pre, v, sig["ret"]
             raise Unsupported("call of %s" % f.id)
         if isinstance(f, ast.Attribute):
+            if is_self(f.value) and f.attr == "get_eq_maxes" and "get_eq_maxes" in self.methods and len(node.args) == 2 \
+                    and isinstance(node.args[1], ast.Constant) and node.args[1].value in (1, 2, 4, 5):
+                # MAX_COMPOSED["eq" + str(eq)][str(lookup[eq - 1])]; the max-vector strings are the (metric, value) lists that
+                # gen_tables extracted with the library's own extract_value_metric
+                self.check_shape("get_eq_maxes", GET_EQ_MAXES_DUMP)
+                k = node.args[1].value
+                p, t, ty = self.ex(node.args[0], env)
+                pre += p
+                if ty != "S":
+                    raise Unsupported("get_eq_maxes of %s" % (ty,))
+                c = self.fresh()
+                pre.append("let %s ← Py.charAt %s %d" % (c, paren(t), k - 1))
+                v = self.fresh()
+                pre.append("let %s ← Py.getitem %s Gen.V4.maxEq%d" % (v, c, k))
+                return pre, v, ("List", "Map")
+            if is_self(f.value) and f.attr == "extract_value_metric" and len(node.args) == 2 \
+                    and isinstance(node.args[0], ast.Constant) and isinstance(node.args[0].value, str):
+                p, t, ty = self.ex(node.args[1], env)
+                pre += p
+                if ty != "Map":
+                    raise Unsupported("extract_value_metric from %s" % (ty,))
+                v = self.fresh()
+                pre.append("let %s ← Py.getitem %s %s" % (v, lean_str(node.args[0].value), paren(t)))
+                return pre, v, "S"
             if is_self(f.value) and f.attr in self.methods:
                 sig = self.sigs[f.attr]
                 if sig["mutates"]:
@@ -638,10 +864,12 @@ class ClassTranslator:
                 pk, tk, yk = self.ex(node.args[0], env)
                 pre += pk
                 if yk != "S":
-                    raise Unsupported(".get key type")
+                    raise Unsupported(".get key type %s at line %s" % (yk, getattr(node, "lineno", "?")))
                 if len(node.args) == 2:
                     pd, td, yd = self.ex(node.args[1], env)
                     pre += pd
+                    if vt == "Dec" and yd == "F" and td.startswith("(none"):
+                        return pre, "(Py.get? %s %s)" % (paren(tk), paren(t)), "F"
                     if yd == vt:
                         return pre, "(Py.getD %s %s %s)" % (paren(tk), paren(t), paren(td)), vt
                     if yd != "NoneT":
@@ -695,6 +923,12 @@ class ClassTranslator:
                     a = self.num(pre, t, ty)
                     return pre, "(Py.quantize1 .%s %s)" % (ROUNDINGS[rm.id], paren(a)), "Dec"
                 raise Unsupported("quantize form")
+            if f.attr == "join" and isinstance(f.value, ast.Constant) and f.value.value == "" and len(node.args) == 1:
+                p, t, ty = self.ex(node.args[0], env)
+                pre += p
+                if ty != ("List", "S"):
+                    raise Unsupported("join of %s" % (ty,))
+                return pre, "(List.flatten %s)" % paren(t), "S"
             if f.attr == "join" and isinstance(f.value, ast.Constant) and isinstance(f.value.value, str) \
                     and len(f.value.value) == 1 and len(node.args) == 1:
                 p, t, ty = self.ex(node.args[0], env)
@@ -760,7 +994,10 @@ class ClassTranslator:
                         else:
                             raise Unsupported("assignment target")
                 elif isinstance(n, ast.AugAssign):
-                    raise Unsupported("augmented assignment")
+                    if isinstance(n.target, ast.Name):
+                        add(n.target.id)
+                    else:
+                        raise Unsupported("augmented assignment target")
                 elif isinstance(n, ast.Call) and isinstance(n.func, ast.Name) and n.func.id in self.closure_mut:
                     add(self.closure_mut[n.func.id])
                 elif isinstance(n, ast.Call) and isinstance(n.func, ast.Attribute) and n.func.attr == "append" \
@@ -856,7 +1093,7 @@ class ClassTranslator:
                 if cls is None:
                     raise Unsupported("except %s" % st.handlers[0].type.id)
                 vs = self.assigned(st.body + st.handlers[0].body)
-                used_later = {n.id for r in rest for n in ast.walk(r) if isinstance(n, ast.Name)}
+                used_later = {n.id for r in rest for n in ast.walk(r) if isinstance(n, ast.Name)} | set(ctx.get("later", ()))
                 save = self.tmp
                 _, eb, tb = self.blk(st.body, env, ctx)
                 _, eh, th = self.blk(st.handlers[0].body, env, ctx)
@@ -903,6 +1140,10 @@ class ClassTranslator:
                 for n in names:
                     env[n.id] = ty[1]
                 continue
+            if isinstance(st, ast.AugAssign) and isinstance(st.target, ast.Name) and isinstance(st.op, (ast.Add, ast.Sub, ast.Mult)):
+                st = ast.copy_location(ast.Assign(targets=[ast.Name(id=st.target.id, ctx=ast.Store())],
+                                                  value=ast.BinOp(left=ast.Name(id=st.target.id, ctx=ast.Load()), op=st.op,
+                                                                  right=st.value)), st)
             if isinstance(st, ast.Assign):
                 if len(st.targets) != 1:
                     raise Unsupported("multiple targets")
@@ -915,8 +1156,9 @@ class ClassTranslator:
                         mangle(tg.attr), "[]" if self.attr_types[tg.attr] == "Map" else "(some [])"))
                     continue
                 if isinstance(tg, ast.Name) and isinstance(st.value, ast.List) and not st.value.elts:
-                    lines.append("let %s : List Str := []" % mangle(tg.id))
-                    env[tg.id] = ("List", "S")
+                    et = self.append_type(tg.id, ctx.get("fn"), env)
+                    lines.append("let %s : List %s := []" % (mangle(tg.id), paren(lean_type(et))))
+                    env[tg.id] = ("List", et)
                     continue
                 self.materialize_fns(st.value, env, lines, ctx)
                 p, t, ty = self.ex(st.value, env)
@@ -926,6 +1168,10 @@ class ClassTranslator:
                         raise Unsupported("local = None")
                     if ty == "P":
                         t, ty = "(decide %s)" % t, "B"
+                    old = env.get(tg.id)
+                    if isinstance(old, tuple) and old[0] == "Maybe":
+                        lines.append("let %s : %s := %s" % (mangle(tg.id), lean_type(old), self.coerce(t, ty, old)))
+                        continue
                     lines.append("let %s : %s := %s" % (mangle(tg.id), lean_type(ty), t))
                     env[tg.id] = ty
                 elif is_self_attr(tg):
@@ -987,16 +1233,18 @@ class ClassTranslator:
                     lines.append("if %s then (do\n%s) else (do\n%s)" % (cond, ind(a, 2), ind(b, 2)))
                     return lines, env, True
                 vs = self.assigned([st])
+                used_later = {n.id for r in rest for n in ast.walk(r) if isinstance(n, ast.Name)} | set(ctx.get("later", ()))
+                ctx_if = dict(ctx, later=used_later)
                 save = self.tmp
-                _, ea, ta = self.blk(st.body, env, ctx)
-                _, eb, tb = self.blk(st.orelse, env, ctx)
+                _, ea, ta = self.blk(st.body, env, ctx_if)
+                _, eb, tb = self.blk(st.orelse, env, ctx_if)
                 self.tmp = save
                 uni = {}
-                used_later = {n.id for r in rest for n in ast.walk(r) if isinstance(n, ast.Name)}
                 for v in list(vs):
                     if v == "self":
                         continue
                     tys = [e[v] for e, term in ((ea, ta), (eb, tb)) if not term and v in e]
+                    maybe = False
                     if len([1 for term in (ta, tb) if not term]) != len(tys):
                         if v in env:
                             tys.append(env[v])
@@ -1004,18 +1252,24 @@ class ClassTranslator:
                             vs.remove(v)        # local to one branch, dead afterwards
                             continue
                         else:
-                            raise Unsupported("variable %s is not assigned on every path" % v)
-                    uni[v] = unify(tys)
-                    if v in env and env[v] != uni[v]:
+                            maybe = True        # unbound on some path: reading it there is a NameError
+                    base = [t[1] if isinstance(t, tuple) and t[0] == "Maybe" else t for t in tys]
+                    if any(isinstance(t, tuple) and t[0] == "Maybe" for t in tys):
+                        maybe = True
+                    u = unify(base)
+                    uni[v] = ("Maybe", u) if maybe else u
+                    if v in env and env[v] != uni[v] and not (env[v] in ("Int", "Dec") and uni[v] in ("Dec", "F")):
                         raise Unsupported("variable %s changes type" % v)
                 outs = []
                 for body in (st.body, st.orelse):
-                    ls, e, term = self.blk(body, env, ctx)
+                    ls, e, term = self.blk(body, env, ctx_if)
                     if not term:
                         vals = []
                         for v in vs:
                             if v == "self":
                                 vals.append("self")
+                            elif v not in e and v not in env:
+                                vals.append("(none : %s)" % lean_type(uni[v]))
                             else:
                                 vals.append(self.coerce(mangle(v), e.get(v, env.get(v)), uni[v]))
                         ls = ls + ["pure %s" % tuple_pat(vals)]
@@ -1027,7 +1281,18 @@ class ClassTranslator:
                 lines.append("let %s ← (if %s then (do\n%s) else (do\n%s))" % (pat, cond, ind(outs[0], 2), ind(outs[1], 2)))
                 continue
             if isinstance(st, ast.For):
-                if st.orelse or not isinstance(st.target, ast.Name) or has_return(st) or has_break(st):
+                brk = None
+                body_stmts = st.body
+                if has_break(st):
+                    # the one supported shape:  ...; if C: continue; break      ("stop at the first element without C")
+                    if len(body_stmts) >= 2 and isinstance(body_stmts[-1], ast.Break) and isinstance(body_stmts[-2], ast.If) \
+                            and len(body_stmts[-2].body) == 1 and isinstance(body_stmts[-2].body[0], ast.Continue) \
+                            and not body_stmts[-2].orelse and not has_break(ast.Module(body=body_stmts[:-2], type_ignores=[])):
+                        brk = body_stmts[-2].test
+                        body_stmts = body_stmts[:-2]
+                    else:
+                        raise Unsupported("break / continue shape")
+                if st.orelse or not isinstance(st.target, ast.Name) or has_return(st):
                     raise Unsupported("for-loop shape")
                 p, t, ty = self.ex(st.iter, env)
                 lines += p
@@ -1041,20 +1306,46 @@ class ClassTranslator:
                     raise Unsupported("for over %s" % (ty,))
                 env2 = dict(env)
                 env2[st.target.id] = ty[1]
-                used_later = {n.id for r in rest for n in ast.walk(r) if isinstance(n, ast.Name)}
+                used_later = {n.id for r in rest for n in ast.walk(r) if isinstance(n, ast.Name)} | set(ctx.get("later", ()))
                 # loop state: self (when mutated) and the locals that live across iterations (defined before the loop)
-                vs = [v for v in self.assigned(st.body) if v == "self" or v in env]
-                for v in self.assigned(st.body):
-                    if v not in vs and v in used_later:
-                        raise Unsupported("loop variable %s is used after the loop" % v)
-                if not vs:
+                body_names = {n.id for b in st.body for n in ast.walk(b) if isinstance(n, ast.Name)}
+                assigned_in = self.assigned(body_stmts)
+                vs = [v for v in assigned_in if v == "self" or v in env]
+                leak = [v for v in assigned_in if v not in vs and v in used_later]
+                if leak:
+                    # assigned in the body, read after the loop: unbound if the loop never ran
+                    save = self.tmp
+                    _, e_dry, _ = self.blk(body_stmts, env2, dict(ctx, mut=("self" in vs), later=used_later))
+                    self.tmp = save
+                    for v in leak:
+                        if v not in e_dry or isinstance(e_dry[v], tuple):
+                            raise Unsupported("loop variable %s is used after the loop" % v)
+                        env[v] = ("Maybe", e_dry[v])
+                        env2[v] = env[v]
+                        lines.append("let %s : %s := none" % (mangle(v), lean_type(env[v])))
+                        vs.append(v)
+                if not vs and brk is None:
                     raise Unsupported("for-loop without state")
-                body, e2, term = self.blk(st.body, env2, dict(ctx, mut=("self" in vs)))
+                body, e2, term = self.blk(body_stmts, env2, dict(ctx, mut=("self" in vs), later=used_later))
                 for v in vs:
                     if v != "self" and e2.get(v) != env[v]:
                         raise Unsupported("loop changes the type of %s" % v)
-                pat = tuple_pat([mangle(v) for v in vs])
-                sty = " × ".join("Self" if v == "self" else paren(lean_type(env[v])) for v in vs)
+                names = [mangle(v) for v in vs]
+                stys = ["Self" if v == "self" else paren(lean_type(env[v])) for v in vs]
+                if brk is not None:
+                    flag = self.fresh("stopped")
+                    pc, tc, yc = self.ex(brk, e2)
+                    if term:
+                        raise Unsupported("loop body ends before its break test")
+                    body = body + pc + ["pure %s" % tuple_pat(names + ["(decide (¬ %s))" % self.as_prop(tc, yc)])]
+                    pat = tuple_pat(names + [flag])
+                    sty = " × ".join(stys + ["Bool"])
+                    lines.append("let %s : Bool := false" % flag)
+                    lines.append("let %s ← List.foldlM (fun (st : %s) (%s : %s) => (do\n  let %s := st\n  if %s = true then pure st else (do\n%s))) %s %s" % (
+                        pat, sty, mangle(st.target.id), lean_type(ty[1]), pat, flag, ind(body, 2), pat, paren(t)))
+                    continue
+                pat = tuple_pat(names)
+                sty = " × ".join(stys)
                 if not term:
                     body = body + ["pure %s" % pat]
                 lines.append("let %s ← List.foldlM (fun (st : %s) (%s : %s) => (do\n  let %s := st\n%s)) %s %s" % (
@@ -1150,7 +1441,7 @@ class ClassTranslator:
             if pt is None:
                 raise Unsupported("parameter %s of unknown type" % pn)
             env[pn] = pt
-        ctx = {"mut": sig["mutates"], "rets": []}
+        ctx = {"mut": sig["mutates"], "rets": [], "fn": fn}
         self.tmp = 0
         stmts = fn.body if body is None else body
         if not sig["mutates"] and not any(isinstance(n, ast.Return) and n.value is not None for n in ast.walk(fn)):
@@ -1292,8 +1583,14 @@ def has_break(st):
 
 def unify(tys):
     ts = set(tys)
+    if not ts:
+        raise Unsupported("a variable without a type")
     if len(ts) == 1:
         return ts.pop()
+    if ts <= {"Int", "Dec"}:
+        return "Dec"
+    if ts <= {"Int", "Dec", "F"}:
+        return "F"
     if ts <= {"Dec", "ODec"}:
         return "ODec"
     if ts <= {"S", "OS"}:
@@ -1465,18 +1762,20 @@ def gen_all(repo, out):
         ("Code4", "cvss4.py", "CVSS4", "V4",
          {"METRICS_VALUE_NAMES": ("Gen.V4.valueNames", N2), "METRICS_MANDATORY": ("Gen.V4.mandatory", LS),
           "METRICS_ABBREVIATIONS": ("Gen.V4.abbrs", ("Dict", "S")), "METRICS_ABBREVIATIONS_JSON": ("Gen.V4.jsonKeys", ("Dict", "S")),
-          "METRICS": ("Gen.V4.metricsOrder", LS)},
-         {"metric": "S", "vector": "S", "abbreviation": "S", "output_prefix": "B", "text": "S", "sort": "B", "minimal": "B"},
-         [],
+          "METRICS": ("Gen.V4.metricsOrder", LS), "CVSS_LOOKUP_GLOBAL": ("Gen.V4.lookupTable", ("Dict", "Dec")),
+          "EPSILON": ("Gen.V4.epsilon", "Dec"), "MAX_SEVERITY": ("Gen.V4.maxSeverityEq1", ("IDict", "Int"))},
+         {"metric": "S", "vector": "S", "abbreviation": "S", "output_prefix": "B", "text": "S", "sort": "B", "minimal": "B",
+          "x": "F"},
+         ["final_rounding"],
          ["parse_vector", "check_mandatory", "add_missing_optional", "m", "macroVector", "get_value_description", "clean_vector",
-          "compute_severity", "as_json"],
+          "compute_base_score", "compute_severity", "as_json"],
          None, [("levels", v4_levels)]),
     ]
     changed = []
     for out_ns, pyfile, cls, tns, consts, ptypes, funcs, methods, tail, extra in jobs:
         try:
             text, done, failed = translate(repo, pyfile, cls, tns, out_ns, consts, ptypes, funcs, methods, tail, extra,
-                                           whole_init=(out_ns != "Code4"))
+                                           whole_init=True)
         except Exception as ex:  # the file cannot be read / parsed at all
             text, done, failed = None, [], [{"name": "*", "error": "%s: %s" % (type(ex).__name__, ex)}]
         results[out_ns] = {"translated": done, "untranslated": failed}
